@@ -42,7 +42,7 @@ def make_uniform_randoms_fast(sparse_map, n_random, nside_randoms=2**23, rng=Non
     bit_shift = _compute_bitshift(sparse_map.nside_sparse, nside_randoms)
 
     # The sub-pixels are random from bit_shift
-    sub_pixels = rng.randint(0, high=2**bit_shift - 1, size=n_random)
+    sub_pixels = rng.randint(0, high=2**bit_shift, size=n_random)
 
     ra_rand, dec_rand = hpg.pixel_to_angle(nside_randoms,
                                            np.left_shift(ipnest_coarse, bit_shift) + sub_pixels,
